@@ -36,7 +36,7 @@ def prop(pid, **kw):
 
 prop(
     "C01",
-    quick={"runs": 6000},
+    quick={"runs": 12000},
     thorough={"runs": 100000000, "budget_s": 600},
     rule="Scenarios (2-8 clients x 1-4 Gets on 1-3 keys, initial entry state absent/fresh/stale/too-stale per key, "
          "random FailoverConfig, builder scripts, backend kind, API flavour) are drawn from the seeded PRNG and executed "
@@ -191,7 +191,7 @@ prop("C15", quick={"runs": 9000}, thorough={"runs": 100000000, "budget_s": 600},
      "(several labels per key, shared keys, repeated labelling, unused labels, labelled-but-absent keys, duplicated label arguments; in 15 % cache names and keys whose concatenation is ambiguous under a separator, in 10 % a constructed xxhash64 collision pair as keys). A third of the runs are "
      "fault-free sequences; a third come in families of 12 sharing one structure while the failing Delete ordinal sweeps 0..11 (every delete position), each "
      "followed by a fault-free retry (the same labels in one call, or one call per label); a third run AddLabels / AddCache / InvalidateByLabels / writes concurrently; every 12th run injects the failure while "
-     "other tasks AddLabels concurrently and ends with a fault-free sweep over all labels; every 12th run lets 2-3 clients invalidate the same labels at once with one failing Delete. In 20 % the constructor's "
+     "other tasks AddLabels concurrently and ends with a fault-free sweep over all labels; every 12th run lets 2-3 clients invalidate the same labels at once with one failing Delete; every 12th run has one fault-free call over all labels while other tasks write keys back and label them again, followed by a sweep. In 20 % the constructor's "
      "argument is a slice with spare capacity that the caller keeps appending caches of its own to.",
      rules=["C15.R1 labelled keys absent after nil", "C15.R2 unlabelled keys untouched, no Delete on a cache that was never registered", "C15.R3 count = entries really removed", "C15.R4 failure returned, no panic", "C15.R5 retry removes every labelled key"],
      probes=["invalidate_ok", "invalidate_with_deleter_failure", "retry_after_failure", "retry_label_by_label", "concurrent_invalidate", "sweep_after_concurrent_failure", "sweep_judged_rewritten_and_relabelled_key"])
